@@ -1,0 +1,163 @@
+//go:build verif
+
+/*
+ * Verification-only constructors and accessors for the variable-stack check (property C14).
+ * Nothing in this file is compiled into production binaries (build tag `verif`).
+ */
+
+package workflow
+
+import (
+	"errors"
+
+	"github.com/AliceO2Group/Control/core/repos"
+	"github.com/AliceO2Group/Control/core/task"
+	"github.com/AliceO2Group/Control/core/task/taskclass"
+	"gopkg.in/yaml.v3"
+)
+
+// VerifVSUnmarshalRole unmarshals a workflow (root aggregator role and everything below it) from
+// YAML exactly as Load's loadSubworkflow closure does, reparenting the root to parent.
+func VerifVSUnmarshalRole(yamlDoc []byte, parent Updatable) (Role, error) {
+	root := new(aggregatorRole)
+	root.parent = parent
+	err := yaml.Unmarshal(yamlDoc, root)
+	if err != nil {
+		return nil, err
+	}
+	if parent != nil {
+		root.setParent(parent)
+	}
+	return root, nil
+}
+
+// VerifVSLoadSubworkflowFunc returns a LoadSubworkflowFunc which serves subworkflows from memory
+// (same steps as the closure in Load, minus the repo manager lookup).
+func VerifVSLoadSubworkflowFunc(docs map[string][]byte, repo repos.IRepo) LoadSubworkflowFunc {
+	return func(workflowPathExpr string, parent Updatable) (root *aggregatorRole, workflowRepo repos.IRepo, err error) {
+		doc, ok := docs[workflowPathExpr]
+		if !ok {
+			return nil, nil, errors.New("verif: unknown subworkflow " + workflowPathExpr)
+		}
+		root = new(aggregatorRole)
+		root.parent = parent
+		err = yaml.Unmarshal(doc, root)
+		if err != nil {
+			return nil, nil, err
+		}
+		if parent != nil {
+			root.setParent(parent)
+		}
+		return root, repo, nil
+	}
+}
+
+// VerifVSChildren returns the direct children of a role as they are stored (iterators not expanded
+// away, disabled roles still present before ProcessTemplates).
+func VerifVSChildren(r Role) []Role {
+	switch typed := r.(type) {
+	case *aggregatorRole:
+		return append([]Role{}, typed.Roles...)
+	case *includeRole:
+		return append([]Role{}, typed.Roles...)
+	case *iteratorRole:
+		return append([]Role{}, typed.Roles...)
+	}
+	return nil
+}
+
+func verifVSBase(r Role) *roleBase {
+	switch typed := r.(type) {
+	case *aggregatorRole:
+		return &typed.roleBase
+	case *includeRole:
+		return &typed.roleBase
+	case *taskRole:
+		return &typed.roleBase
+	case *callRole:
+		return &typed.roleBase
+	}
+	return nil
+}
+
+// VerifVSKind names the concrete role type.
+func VerifVSKind(r Role) string {
+	switch r.(type) {
+	case *aggregatorRole:
+		return "aggregator"
+	case *includeRole:
+		return "include"
+	case *iteratorRole:
+		return "iterator"
+	case *taskRole:
+		return "task"
+	case *callRole:
+		return "call"
+	}
+	return "?"
+}
+
+// VerifVSEnabled returns the raw `enabled` field (a template before ProcessTemplates, its
+// rendering afterwards).
+func VerifVSEnabled(r Role) string {
+	if b := verifVSBase(r); b != nil {
+		return b.Enabled
+	}
+	return ""
+}
+
+// VerifVSConstraintValues returns the role's own constraint values (templates before
+// ProcessTemplates, their renderings afterwards).
+func VerifVSConstraintValues(r Role) []string {
+	out := make([]string, 0)
+	if b := verifVSBase(r); b != nil {
+		for _, c := range b.Constraints {
+			out = append(out, c.Value)
+		}
+	}
+	return out
+}
+
+// VerifVSLocals returns a copy of the role's iterator locals.
+func VerifVSLocals(r Role) map[string]string {
+	out := make(map[string]string)
+	if b := verifVSBase(r); b != nil {
+		for k, v := range b.Locals {
+			out[k] = v
+		}
+	}
+	return out
+}
+
+// VerifVSCallFields returns func and return of a call role after template processing.
+func VerifVSCallFields(r Role) (funcCall string, returnVar string, ok bool) {
+	if c, isCall := r.(*callRole); isCall {
+		return c.FuncCall, c.ReturnVar, true
+	}
+	return "", "", false
+}
+
+// VerifVSNewTask creates the task of a task role for the given class, the way the task manager
+// does when it accepts an offer for the role's descriptor, and attaches it to the role.
+func VerifVSNewTask(r Role, class *taskclass.Class, hostname string) (*task.Task, error) {
+	tr, ok := r.(*taskRole)
+	if !ok {
+		return nil, errors.New("verif: not a task role")
+	}
+	t := task.VerifVSNewTask(tr, class, hostname)
+	tr.SetTask(t)
+	return t, nil
+}
+
+// VerifVSTemplateChildren returns the children of an iterator's role template (the roles every
+// generated role will get copies of); nil when the template is not an aggregator.
+func VerifVSTemplateChildren(r Role) []Role {
+	it, ok := r.(*iteratorRole)
+	if !ok {
+		return nil
+	}
+	if at, isAgg := it.template.(*aggregatorTemplate); isAgg {
+		return append([]Role{}, at.Roles...)
+	}
+	return nil
+}
